@@ -156,13 +156,19 @@ def run(case):
         value = build_root(tree, variant)
         sizes = leaf_sizes(tree, [])
 
+        whole = bool(case.get("whole"))
+
         def f(c):
+            roots = [c, c, c]
+            if whole:
+                c3 = alist([c, c, c])          # the container used as a whole, three times
+                roots = [c3[0], c3[1], c3[2]]
             if outmode == "scalar":
                 tot = 0.0
-                for term in prog:
-                    tot = tot + term_value(c, tree, term)
+                for i, term in enumerate(prog):
+                    tot = tot + term_value(roots[2 - i % 3], tree, term)     # the LAST copy first: its cotangent is the third to be accumulated
                 return tot
-            vals = [term_value(c, tree, term) for term in prog]
+            vals = [term_value(roots[2 - i % 3], tree, term) for i, term in enumerate(prog)]
             if outmode == "tuple":
                 return atuple(vals)
             if outmode == "list":
